@@ -28,7 +28,7 @@ Is(e) == l <= Len(Rec) /\ Rec[l].ev = e /\ l' = l + 1
 TInit  == RInit /\ l = 1 /\ TLCSet(1, 1)
 TBuilt == Is("built") /\ Build(E.id, E.steps)
 TCall  == Is("dispatch") /\ Call(E.id, E.req, E.inverted, E.invertible, E.n)
-TRet   == Is("applied") /\ Ret(E.id, E.count)
+TRet   == Is("applied") /\ Ret(E.id, E.count, E.ran)
 TSkip  == Is("step") /\ E.skipped /\ Skip(E.id)
 TStep  == Is("step") /\ ~E.skipped /\ StepDone(E.id, E.dir, E.count, E.depth)
 TReset == Is("reset") /\ frames' = <<>> /\ hist' = <<>> /\ last' = None /\ UNCHANGED built
